@@ -177,6 +177,21 @@ def install(I):
     E["attrs.astuple"] = Builtin("attrs.astuple", _attrs_astuple)
     E["deprecated.deprecated"] = Builtin("deprecated", lambda i, a, k: Builtin("deprecated.deco", lambda i2, a2, k2: a2[0]))
     E["collections.deque"] = _deque_class(I, mkcls, meth)
+    def _chain(i, a, k):
+        def gen():
+            for x in a:
+                yield from i.iterate(x)
+        return IterV(gen())
+
+    def _chain_from_iterable(i, a, k):
+        def gen():
+            for x in i.iterate(a[0]):
+                yield from i.iterate(x)
+        return IterV(gen())
+    chain_cls = mkcls("chain")
+    chain_cls.ns["__pyvc_new__"] = lambda i, cls, a, k: _chain(i, a, k)
+    chain_cls.ns["from_iterable"] = StaticMethodV(Builtin("chain.from_iterable", _chain_from_iterable))
+    E["itertools.chain"] = chain_cls
     E["atexit.register"] = Builtin("atexit.register", lambda i, a, k: i.st.event("atexit", a[0]))
     E["copy.deepcopy"] = Builtin("deepcopy", lambda i, a, k: (_ for _ in ()).throw(Unsupported("deepcopy")))
     E["collections.abc.MutableMapping"] = obj
